@@ -1,1 +1,110 @@
-pub fn run() { unimplemented!() }
+//! S4 (static files): runs add_* histories through the public API on a real directory.
+//! child protocol (stdout, grouped by the `capture` wrapper in main.rs):
+//!   ##CASE / ##R key=value ... / ##END, with ructe's own println! lines in between.
+//! case: ops separated by spaces, each `K:hex:hex..`:
+//!   F:<relpath>:<content>        write the file, then add_file(relpath)
+//!   A:<relpath>:<url>:<content>  write the file, then add_file_as(relpath, url)
+//!   D:<path>:<data>              add_file_data(path, data)
+//!   W:<relpath>:<content>        only write the file (for add_files / add_files_as / sass imports)
+//!   M:<reldir>                   create the directory
+//!   G:<reldir>                   add_files(reldir)
+//!   T:<reldir>:<to>              add_files_as(reldir, to)
+//!   S:<relpath>                  add_sass_file(relpath)   (feature sass)
+use crate::{hex, unhex};
+use ructe::Ructe;
+use std::io::BufRead;
+use std::path::PathBuf;
+
+pub fn workdir() -> PathBuf {
+    let d = std::env::temp_dir().join(format!("rvh-{}", std::process::id()));
+    let _ = std::fs::remove_dir_all(&d);
+    std::fs::create_dir_all(&d).unwrap();
+    d
+}
+
+fn s(h: &str) -> String {
+    String::from_utf8(unhex(h)).unwrap()
+}
+
+pub fn run() {
+    let work = workdir();
+    let stdin = std::io::stdin();
+    let mut n = 0u64;
+    for line in stdin.lock().lines() {
+        let line = line.unwrap();
+        n += 1;
+        let base = work.join(format!("c{n}"));
+        let out = work.join(format!("o{n}"));
+        std::fs::create_dir_all(&base).unwrap();
+        std::fs::create_dir_all(&out).unwrap();
+        std::env::set_var("CARGO_MANIFEST_DIR", &base);
+        println!("##CASE");
+        println!("##R base={}", hex(base.to_str().unwrap().as_bytes()));
+        let r = std::panic::catch_unwind(|| {
+            let mut r = Ructe::new(out.clone()).unwrap();
+            let mut st = r.statics().unwrap();
+            for op in line.split(' ').filter(|x| !x.is_empty()) {
+                let f: Vec<&str> = op.split(':').collect();
+                let wr = |rel: &str, content: &[u8]| {
+                    let p = base.join(rel);
+                    if let Some(d) = p.parent() {
+                        std::fs::create_dir_all(d).unwrap();
+                    }
+                    std::fs::write(&p, content).unwrap();
+                };
+                let res: Result<(), String> = match f[0] {
+                    "F" => {
+                        wr(&s(f[1]), &unhex(f[2]));
+                        st.add_file(s(f[1])).map(|_| ()).map_err(|e| format!("{e:?}"))
+                    }
+                    "A" => {
+                        wr(&s(f[1]), &unhex(f[3]));
+                        st.add_file_as(s(f[1]), &s(f[2])).map(|_| ()).map_err(|e| format!("{e:?}"))
+                    }
+                    "D" => st.add_file_data(s(f[1]), &unhex(f[2])).map(|_| ()).map_err(|e| format!("{e:?}")),
+                    "W" => {
+                        wr(&s(f[1]), &unhex(f[2]));
+                        Ok(())
+                    }
+                    "M" => {
+                        std::fs::create_dir_all(base.join(s(f[1]))).unwrap();
+                        Ok(())
+                    }
+                    "G" => st.add_files(s(f[1])).map(|_| ()).map_err(|e| format!("{e:?}")),
+                    "T" => st.add_files_as(s(f[1]), &s(f[2])).map(|_| ()).map_err(|e| format!("{e:?}")),
+                    #[cfg(feature = "sass")]
+                    "S" => match st.add_sass_file(s(f[1])) {
+                        Ok(_) => Ok(()),
+                        Err(e) => Err(format!("{e:?}")),
+                    },
+                    _ => Err("unknown op".into()),
+                };
+                match res {
+                    Ok(()) => println!("##R op=ok"),
+                    Err(e) => println!("##R op={}", hex(format!("E{e}").as_bytes())),
+                }
+            }
+            let names: Vec<String> = st
+                .get_names()
+                .iter()
+                .map(|(k, v)| format!("{}={}", hex(k.as_bytes()), hex(v.as_bytes())))
+                .collect();
+            println!("##R names={}", if names.is_empty() { "-".to_string() } else { names.join(",") });
+        });
+        if r.is_err() {
+            println!("##R panic=1");
+        }
+        match std::fs::read(out.join("templates/statics.rs")) {
+            Ok(g) => println!("##R statics={}", hex(&g)),
+            Err(_) => println!("##R statics=MISSING"),
+        }
+        match std::fs::read(out.join("templates.rs")) {
+            Ok(g) => println!("##R templates={}", hex(&g)),
+            Err(_) => println!("##R templates=MISSING"),
+        }
+        println!("##END");
+        let _ = std::fs::remove_dir_all(&base);
+        let _ = std::fs::remove_dir_all(&out);
+    }
+    let _ = std::fs::remove_dir_all(&work);
+}
